@@ -134,6 +134,23 @@ def metric(ctx) -> None:
     first = 'result = apply(outcomes[0])' in text and 'merge(flow.Worker(self._reducer, partition_count, 1), result, 0)' in text
     rest = 'for idx, out in enumerate(outcomes[1:], start=1)' in text and 'merge(result, apply(out), idx)' in text
     ctx.check(first and rest and 'partition_count := len(outcomes)' in text, 'C12.metric', fn, 'every fold outcome is scored exactly once: outcome 0 at index 0, outcomes[1:] at indices 1.. (reducer width = number of outcomes)', fn.node, key='metric:exactly-once')
+    # every Outcome built in forml.evaluation binds the *true* labels to `true` and the predictions to `pred` (both are
+    # publishers: the metric of swapped operands is silently wrong for every asymmetric metric)
+    nout = 0
+    for ofn in prog.functions([m for m in prog.modules if m.startswith('forml.evaluation')]):
+        for c in core.calls_in(ofn.node, deep=False):
+            if core.call_tail(c) != 'Outcome' or len(c.args) + len(c.keywords) != 2:
+                continue
+            nout += 1
+            b = {'true': None, 'pred': None}
+            for name, a in zip(('true', 'pred'), c.args):
+                b[name] = core.src(a)
+            for k in c.keywords:
+                b[k.arg] = core.src(k.value)
+            lab = 'label' in (b['true'] or '').lower()
+            prd = 'label' not in (b['pred'] or '').lower()
+            ctx.check(lab and prd, 'C12.metric', ofn, f'Outcome(true={b["true"]}, pred={b["pred"]}): `true` comes from a label path, `pred` from a prediction path', c, key=f'Outcome:{ofn.qual}')
+    ctx.floor('C12.outcome-sites', nout, 2)
     oc = prog.cls('forml.evaluation._api:Outcome')
     ctx.check(list(oc.annotations)[:2] == ['true', 'pred'], 'C12.metric', oc.ref, 'Outcome fields are (true, pred)', key='Outcome:fields', loc=oc.module.relpath)
 
